@@ -33,7 +33,7 @@ def _model(name, table, fields):
     return ms
 
 
-def _project(l0, l1, ct, cm2m, cross, n_first=False):
+def _project(l0, l1, ct, cm2m, cross, n_first=False, two_m2m=False):
     """app0: M (table custom or default), N with ManyToMany 'rel' to M (table custom or default);
     app1: M (same model name, default table), P with an optional ForeignKey to app0.M."""
     a0, a1 = LABELS[l0], LABELS[l1]
@@ -47,8 +47,12 @@ def _project(l0, l1, ct, cm2m, cross, n_first=False):
         m2m_attrs['db_table'] = CUSTOM[cm2m]
     t_n0 = '%s_n' % a0
     sig_m = _model('M', t_m0, [FieldSignature('v', models.IntegerField, {})])
-    sig_n = _model('N', t_n0, [
-        FieldSignature('rel', models.ManyToManyField, m2m_attrs, related_model='%s.M' % a0)])
+    n_fields = [FieldSignature('rel', models.ManyToManyField, m2m_attrs, related_model='%s.M' % a0)]
+    if two_m2m:
+        # a second many-to-many field, to a model of the other app, default table name
+        n_fields.append(FieldSignature('rel2', models.ManyToManyField, {},
+                                       related_model='%s.M' % a1))
+    sig_n = _model('N', t_n0, n_fields)
     # n_first: the model holding the relation is defined before its target
     for ms in ((sig_n, sig_m) if n_first else (sig_m, sig_n)):
         app0.add_model_sig(ms)
@@ -58,7 +62,7 @@ def _project(l0, l1, ct, cm2m, cross, n_first=False):
     t_p1 = '%s_p' % a1
     app1.add_model_sig(_model('P', t_p1, pf))
     tables = {
-        0: {'M': [t_m0], 'N': [CUSTOM[cm2m] or '%s_rel' % t_n0, t_n0]},
+        0: {'M': [t_m0], 'N': [CUSTOM[cm2m] or '%s_rel' % t_n0, t_n0] + (['%s_rel2' % t_n0] if two_m2m else [])},
         1: {'M': [t_m1], 'P': [t_p1]},
     }
     return proj, (a0, a1), tables
@@ -87,17 +91,18 @@ def _flat(sql):
         return [s for (s, p, _t, _n) in ex._prepare_sql(sql)]
 
 
-def h_purge(l0: int, l1: int, ct: int, cm2m: int, cross: bool, which: int, n_first: bool) -> bool:
+def h_purge(l0: int, l1: int, ct: int, cm2m: int, cross: bool, which: int, n_first: bool,
+            two_m2m: bool) -> bool:
     """PurgeAppTask.prepare for app `which`.
 
     pre: _names_ok(l0, l1, ct, cm2m) and 0 <= which <= 1
     pre: hx.in_part(l0, l1)
-    pre: not hx.excluded(l0, l1, ct, cm2m, cross, which, n_first)
+    pre: not hx.excluded(l0, l1, ct, cm2m, cross, which, n_first, two_m2m)
     pre: not (hx.kf('c15_purge_relation_to_earlier_model') and which == 0 and not n_first)
     post: _
     """
     proj, labels, tables = _project(l0, l1, ct, cm2m, True if cross else False,
-                                    True if n_first else False)
+                                    True if n_first else False, True if two_m2m else False)
     if not _distinct_tables(tables):
         return hx.verdict(True, False)
     other = 1 - which
@@ -116,15 +121,17 @@ def h_purge(l0: int, l1: int, ct: int, cm2m: int, cross: bool, which: int, n_fir
     return hx.verdict(ok, True)
 
 
-def h_delete_model(l0: int, l1: int, ct: int, cm2m: int, cross: bool, app_i: int, mi: int) -> bool:
+def h_delete_model(l0: int, l1: int, ct: int, cm2m: int, cross: bool, app_i: int, mi: int,
+                   two_m2m: bool) -> bool:
     """DeleteModel through AppMutator: only the named model (and its M2M tables) goes.
 
     pre: _names_ok(l0, l1, ct, cm2m) and 0 <= app_i <= 1 and 0 <= mi <= 1
     pre: hx.in_part(l0, l1)
-    pre: not hx.excluded(l0, l1, ct, cm2m, cross, app_i, mi)
+    pre: not hx.excluded(l0, l1, ct, cm2m, cross, app_i, mi, two_m2m)
     post: _
     """
-    proj, labels, tables = _project(l0, l1, ct, cm2m, True if cross else False)
+    proj, labels, tables = _project(l0, l1, ct, cm2m, True if cross else False, False,
+                                    True if two_m2m else False)
     if not _distinct_tables(tables):
         return hx.verdict(True, False)
     names = sorted(tables[app_i])
